@@ -74,6 +74,8 @@ type c19Shared struct {
 	ints                     []int64
 	strs                     []string
 	highShared               *integrate.HighSpatialID // six children of one voxel, merged at build time; only ever an argument afterwards
+	fineA, fineB             *object.Point            // end points of a 1 cm diagonal segment
+	grid24a, grid24b         []string                 // 24 voxels and one descendant of each
 	strsWin                  []string                 // length 3 window of an 8-element array: helpers must not write behind it
 	emptyCap                 []string                 // length 0, capacity 8, over a backing array filled with sentinels
 	badList                  []string                 // valid prefix that expands to > 1000 voxels, then a malformed ID
@@ -82,10 +84,10 @@ type c19Shared struct {
 
 func (s *c19Shared) snapshot() string {
 	var b strings.Builder
-	for _, l := range [][]string{s.ext, s.extSorted, s.sp, s.nest, s.strs, s.family} {
+	for _, l := range [][]string{s.ext, s.extSorted, s.sp, s.nest, s.strs, s.family, s.grid24a, s.grid24b} {
 		fmt.Fprintf(&b, "%q|", l)
 	}
-	for _, l := range [][]*object.Point{s.points, s.pointsJP, {s.a, s.b}} {
+	for _, l := range [][]*object.Point{s.points, s.pointsJP, {s.a, s.b}, {s.fineA, s.fineB}} {
 		for _, p := range l {
 			fmt.Fprintf(&b, "%x,%x,%x;", math.Float64bits(p.Lon()), math.Float64bits(p.Lat()), math.Float64bits(p.Alt()))
 		}
@@ -142,6 +144,11 @@ func c19Build() (*c19Shared, []c19Inst) {
 	}
 	s.nest = []string{"11/1810/806/12/7", "11/1811/807/12/7", "10/905/403/12/7", "10/905/403/11/3", "10/905/403/11/3"}
 	mk := func(lon, lat, alt float64) *object.Point { p, _ := object.NewPoint(lon, lat, alt); return p }
+	s.fineA, s.fineB = mk(139.7530981, 35.6853711, 10.0001), mk(139.75309815, 35.68537115, 10.0101)
+	for i := 0; i < 24; i++ {
+		s.grid24a = append(s.grid24a, fmt.Sprintf("15/%d/%d/15/%d", 29000+i, 12900+i, i-5))
+		s.grid24b = append(s.grid24b, fmt.Sprintf("17/%d/%d/16/%d", 4*(29000+i)+i%4, 4*(12900+i)+1, 2*(i-5)+i%2)) // a descendant of row i of the first list
+	}
 	s.points = []*object.Point{mk(139.753098, 35.685371, 100), mk(139.753098, 35.685371, -20.5), mk(-179.9999, -84.9, 0), mk(0, 0, -0.001), mk(180, 85.05, 33554432)}
 	s.pointsJP = []*object.Point{mk(139.753098, 35.685371, 100), mk(135.5, 34.7, 12)}
 	s.a, s.b = mk(139.753098, 35.685371, 10), mk(139.7535, 35.6857, 25)
@@ -228,6 +235,10 @@ func c19Build() (*c19Shared, []c19Inst) {
 		I("shape.GetPointOnExtendedSpatialId(Center)", func() string { return pts2s(shape.GetPointOnExtendedSpatialId(s.ext[0], enum.Center)) }),
 		I("shape.GetPointOnSpatialId", func() string { return pts2s(shape.GetPointOnSpatialId(s.sp[2], enum.Vertex)) }),
 		I("shape.GetExtendedSpatialIdsOnLine", func() string { return sortedJoin(shape.GetExtendedSpatialIdsOnLine(s.a, s.b, 22, 24)) }),
+		// the same function in its high-zoom regime (other termination thresholds), concurrently with the ordinary one
+		I("shape.GetExtendedSpatialIdsOnLine(hZoom 33, vZoom 35, 1 cm diagonal)", func() string {
+			return sortedJoin(shape.GetExtendedSpatialIdsOnLine(s.fineA, s.fineB, 33, 35))
+		}),
 		I("shape.GetSpatialIdsOnLine", func() string { return sortedJoin(shape.GetSpatialIdsOnLine(s.a, s.b, 21)) }),
 		I("shape.ConvertSpatialIdsToExtendedSpatialIds", func() string { l, e := shape.ConvertSpatialIdsToExtendedSpatialIds(s.sp); return fmt.Sprint(l, e) }),
 		I("shape.ConvertExtendedSpatialIdsToSpatialIds", func() string { l, e := shape.ConvertExtendedSpatialIdsToSpatialIds(s.ext); return fmt.Sprint(l, e) }),
@@ -254,6 +265,12 @@ func c19Build() (*c19Shared, []c19Inst) {
 		I("detector.CheckSpatialIdsOverlap", func() string { g, e := detector.CheckSpatialIdsOverlap(s.sp[0], s.sp[3]); return fmt.Sprint(g, e) }),
 		I("detector.CheckExtendedSpatialIdsOverlap", func() string {
 			g, e := detector.CheckExtendedSpatialIdsOverlap(s.ext[0], s.ext[4])
+			return fmt.Sprint(g, e)
+		}),
+		// 24 x 24 = 576 pairs with overlapping pairs in many rows (a check that splits the pairs over workers has to
+		// combine their answers without sharing a plain variable)
+		I("detector.CheckExtendedSpatialIdsArrayOverlap(24 x 24, many overlapping rows)", func() string {
+			g, e := detector.CheckExtendedSpatialIdsArrayOverlap(s.grid24a, s.grid24b)
 			return fmt.Sprint(g, e)
 		}),
 		I("detector.CheckExtendedSpatialIdsArrayOverlap", func() string {
